@@ -17,6 +17,7 @@ mod c13;
 mod c14;
 mod fuzz;
 mod model;
+mod gen;
 mod c15;
 mod c18;
 mod c19;
@@ -50,19 +51,20 @@ fn main() {
         "C18" => c18::run(&mut r),
         "C19" => c19::run(&mut r),
         "C20" => c20::run(&mut r),
-        "C01" => { c01::run_c01(&mut r); model::run(&mut r, "differential") }
+        "C01" => { c01::run_c01(&mut r); gen::run(&mut r); model::run(&mut r, "differential") }
         "C04" => c01::run_c04(&mut r),
         "C06" => { c01::run_c06(&mut r); c15::run(&mut r); model::run(&mut r, "differential") }
         "C07" => { c01::run_c07(&mut r); c15::run(&mut r); model::run(&mut r, "differential") }
         "C02" => { c02::run(&mut r); model::run(&mut r, "differential") }
         "C03" => { c03::run(&mut r); model::run(&mut r, "differential") }
         "C08" => { c08::run(&mut r); c03::run(&mut r) }
-        "C09" => c09::run_c09(&mut r),
-        "C05" => { c10::run_c05(&mut r); c10::run_c10(&mut r); c09::run_c09(&mut r) }
+        "C09" => { c09::run_c09(&mut r); gen::run(&mut r) }
+        "C05" => { c10::run_c05(&mut r); c10::run_c10(&mut r); c09::run_c09(&mut r); gen::run(&mut r) }
         "C11" => { c09::run_c11(&mut r); c12::run(&mut r) }
         "C10" => c10::run_c10(&mut r),
         "C12" => c12::run(&mut r),
         "MODEL" => model::run(&mut r, "differential"),
+        "GEN" => gen::run(&mut r),
         "C13" => { c13::run(&mut r); model::run(&mut r, "differential") }
         "C15" => { c15::run(&mut r); c02::run(&mut r) }
         _ => {}
